@@ -99,6 +99,23 @@ def leaf(draw):
 
 
 @st.composite
+def leaf_for(draw, tg):
+    """A leaf query that matches the given tag of the annotation: a term of its path, its quoted short form, or a
+    prefix of it with a star."""
+    c = ctx()
+    node = c["m"].by_long[tg["node"].casefold()]
+    kind = draw(st.sampled_from(["term", "quoted", "star"]))
+    if kind == "term":
+        terms = node.long.split("/")
+        return terms[draw(st.integers(0, len(terms) - 1))].casefold()
+    text = tg["short"]
+    if kind == "quoted":
+        return '"' + draw(st.sampled_from([text, text.lower(), text.upper()])) + '"'
+    k = draw(st.integers(1, len(text)))
+    return text[:k].rstrip("/") + "*"
+
+
+@st.composite
 def query(draw, depth, allow_neg=True, allow_wild=True):
     if depth == 0 or draw(st.integers(0, 3)) == 0:
         q = draw(leaf())
@@ -148,6 +165,12 @@ def laws_case(draw):
     t = draw(tree(3))
     a, b, c3 = draw(query(2)), draw(query(2)), draw(query(1))
     la, lb = draw(leaf()), draw(leaf())
+    present = list(flat(t))
+    if present and draw(st.integers(0, 2)) == 0:
+        # both leaves aimed at tags that are there: the same tag twice (must not satisfy a conjunction) or two tags
+        x = present[draw(st.integers(0, len(present) - 1))]
+        y = x if draw(st.booleans()) else present[draw(st.integers(0, len(present) - 1))]
+        la, lb = draw(leaf_for(x)), draw(leaf_for(y))
     return {"tree": t, "A": a, "B": b, "C": c3, "LA": la, "LB": lb, "perm_seed": draw(st.integers(0, 10 ** 6))}
 
 
